@@ -15,7 +15,14 @@ import (
 //   documented  – the literal passed to UnsupportedFormat (all calls in the function must agree)
 // Kinds without such a switch (Undef, Regexp) are emitted with `noSwitch := true`.
 
-func init() { register("formatletters", "FormatLetters", genFormatLetters) }
+// Family "formatlettersx": the same facts for EVERY value kind with a ToString of its own (table `formatLettersX` over `XKind`,
+// lean/Pcore/Model/FormatX.lean), plus
+//   flagged     – of the handled letters, those whose arm calls ApplyStringFlags (width, precision and `-` are honoured)
+// and the plain function TypeToString (Type values); object instances are formatted by Hash.ToString2 (ObjectToString).
+func init() {
+	register("formatletters", "FormatLetters", genFormatLetters)
+	register("formatlettersx", "FormatLettersX", genFormatLettersX)
+}
 
 type letterSite struct {
 	kind, file, recv, fn string
@@ -32,6 +39,33 @@ var letterSites = []letterSite{
 	{"hash", "types/hashtype.go", "Hash", "ToString2"},
 	{"undef", "types/undeftype.go", "UndefValue", "ToString"},
 	{"regexp", "types/regexptype.go", "Regexp", "ToString"},
+}
+
+var letterSitesX = append(append([]letterSite{}, letterSites...),
+	letterSite{"semver", "types/semvertype.go", "SemVer", "ToString"},
+	letterSite{"semverRange", "types/semverrangetype.go", "SemVerRange", "ToString"},
+	letterSite{"uri", "types/uritype.go", "UriValue", "ToString"},
+	letterSite{"tspan", "types/timespantype.go", "Timespan", "ToString"},
+	letterSite{"tstamp", "types/timestamptype.go", "Timestamp", "ToString"},
+	letterSite{"sensitive", "types/sensitivetype.go", "Sensitive", "ToString"},
+	letterSite{"typ", "types/types.go", "", "TypeToString"},
+	letterSite{"obj", "types/hashtype.go", "Hash", "ToString2"},
+)
+
+// armCalls: the arm contains a call `….NAME(…)`
+func armCalls(body []ast.Stmt, name string) bool {
+	found := false
+	for _, st := range body {
+		ast.Inspect(st, func(n ast.Node) bool {
+			if call, ok := n.(*ast.CallExpr); ok {
+				if sel, ok := call.Fun.(*ast.SelectorExpr); ok && sel.Sel.Name == name {
+					found = true
+				}
+			}
+			return true
+		})
+	}
+	return found
 }
 
 func leanChars(s string) string {
@@ -116,16 +150,24 @@ func sortedChars(m map[byte]bool) string {
 }
 
 func genFormatLetters() string {
+	return genLetterTable("formatletters", "Pcore.Model.Format", "formatLetters", "LetterRow", letterSites, false)
+}
+
+func genFormatLettersX() string {
+	return genLetterTable("formatlettersx", "Pcore.Model.FormatX", "formatLettersX", "XLetterRow", letterSitesX, true)
+}
+
+func genLetterTable(family, imp, table, rowType string, sites []letterSite, withFlagged bool) string {
 	var b strings.Builder
-	b.WriteString(header("formatletters", "the ToString methods of the value kinds (types/*type.go)"))
-	b.WriteString("import Pcore.Model.Format\nnamespace Pcore.Generated\nopen Pcore.Format\n\n")
-	b.WriteString("def formatLetters : List LetterRow := [\n")
+	b.WriteString(header(family, "the ToString methods of the value kinds (types/*type.go)"))
+	b.WriteString("import " + imp + "\nnamespace Pcore.Generated\nopen Pcore.Format\n\n")
+	b.WriteString("def " + table + " : List " + rowType + " := [\n")
 	rows := []string{}
-	for _, site := range letterSites {
+	for _, site := range sites {
 		f := parseFile(site.file)
 		fd := findFunc(f, site.recv, site.fn)
 		var unknown []string
-		handled, toFloat, toInt := map[byte]bool{}, map[byte]bool{}, map[byte]bool{}
+		handled, toFloat, toInt, flagged := map[byte]bool{}, map[byte]bool{}, map[byte]bool{}, map[byte]bool{}
 		// every UnsupportedFormat literal in the function
 		lits := map[string]bool{}
 		ast.Inspect(fd, func(n ast.Node) bool {
@@ -145,6 +187,19 @@ func genFormatLetters() string {
 			return true
 		})
 		noSwitch := sw == nil
+		// ApplyStringFlags called outside the switch: it applies whatever the letter
+		flagsAll := false
+		ast.Inspect(fd, func(n ast.Node) bool {
+			if sw != nil && n == ast.Node(sw) {
+				return false
+			}
+			if call, ok := n.(*ast.CallExpr); ok {
+				if sel, ok := call.Fun.(*ast.SelectorExpr); ok && sel.Sel.Name == "ApplyStringFlags" {
+					flagsAll = true
+				}
+			}
+			return true
+		})
 		if nsw > 1 {
 			unknown = append(unknown, "more than one switch on f.FormatChar()")
 		}
@@ -181,6 +236,9 @@ func genFormatLetters() string {
 					if armDelegates(cc.Body, "integerValue") {
 						toInt[byte(r)] = true
 					}
+					if armCalls(cc.Body, "ApplyStringFlags") {
+						flagged[byte(r)] = true
+					}
 				}
 			}
 			if !hasDefault {
@@ -202,9 +260,13 @@ func genFormatLetters() string {
 		for i, u := range unknown {
 			us[i] = leanStr(u)
 		}
+		fl := ""
+		if withFlagged {
+			fl = " flagsAll := " + strconv.FormatBool(flagsAll) + ", flagged := " + leanChars(sortedChars(flagged)) + ","
+		}
 		rows = append(rows, "  { kind := ."+site.kind+", noSwitch := "+strconv.FormatBool(noSwitch)+
 			", handled := "+leanChars(sortedChars(handled))+", toFloat := "+leanChars(sortedChars(toFloat))+
-			", toInt := "+leanChars(sortedChars(toInt))+",\n    documented := "+leanChars(doc)+", unknown := ["+strings.Join(us, ", ")+"] }")
+			", toInt := "+leanChars(sortedChars(toInt))+",\n   "+fl+" documented := "+leanChars(doc)+", unknown := ["+strings.Join(us, ", ")+"] }")
 	}
 	b.WriteString(strings.Join(rows, ",\n"))
 	b.WriteString("\n]\n\nend Pcore.Generated\n")
